@@ -262,7 +262,15 @@ pub fn run(scn: &Value) -> Value {
             _ => "true".to_string(),
         };
         let code = (i % 3) as i32 * 7;
-        let full = format!("{script}; echo out-line; echo err-line >&2; exit {code}");
+        // the streams, in several shapes: plain lines; CR LF line ends and a lone CR; no final newline, tabs,
+        // trailing blanks and non-ASCII text
+        let (out_txt, err_txt): (&str, &str) = match i % 3 {
+            0 => ("out-line\n", "err-line\n"),
+            1 => ("HTTP/1.1 200 OK\r\n\r\nbody\rover\n", "warn\r\n"),
+            _ => ("tab\there  \n\u{e9}\u{4e2d} no newline", "  e\n\n"),
+        };
+        let oct = |t: &str| t.bytes().map(|b| format!("\\{:03o}", b)).collect::<String>();
+        let full = format!("{script}; printf '{}'; printf '{}' >&2; exit {code}", oct(out_txt), oct(err_txt));
         let cmd = ["sh", "-c", full.as_str()];
         let r = guarded(|| in_toto::runlib::in_toto_run("stepname", None, &argrefs, &argrefs, &cmd, None, Some(algs), lstrip));
         res = match r {
@@ -270,8 +278,8 @@ pub fn run(scn: &Value) -> Value {
                 in_toto::models::MetadataWrapper::Link(l) => {
                     let (m, d1) = entries_of(&l.materials, algs, class, big);
                     let (p, d2) = entries_of(&l.products, algs, class, big);
-                    let byp_ok = l.byproducts.stdout().as_deref() == Some("out-line\n")
-                        && l.byproducts.stderr().as_deref() == Some("err-line\n")
+                    let byp_ok = l.byproducts.stdout().as_deref() == Some(out_txt)
+                        && l.byproducts.stderr().as_deref() == Some(err_txt)
                         && l.byproducts.return_value() == Some(code);
                     json!({"out": "ok", "entries": m, "after": p, "digests_ok": d1 && d2, "byproducts_ok": byp_ok, "name_ok": l.name == "stepname",
                            "unsigned": mb.signatures.is_empty()})
